@@ -81,6 +81,12 @@ func (s Snap) SameAll(o Snap) bool {
 	return true
 }
 
+// SameButWords reports agreement on every attribute except the raw word layout
+// (the same value may be stored with extra low zero words).
+func (s Snap) SameButWords(o Snap) bool {
+	return s.Malformed == o.Malformed && s.Val().Equal(o.Val()) && s.Prec == o.Prec && s.Mode == o.Mode && s.Acc == o.Acc
+}
+
 // SameValue reports equality of value and sign (signed zeros distinguished).
 func (s Snap) SameValue(o Snap) bool { return s.Val().Equal(o.Val()) && s.Malformed == "" && o.Malformed == "" }
 
